@@ -783,6 +783,17 @@ impl endpoint::Session for Session {
         flow: Flow,
     ) -> Result<Option<SessionOutgoingItem>, Self::Error> {
         let outgoing_link_flow = self.on_incoming_flow_inner(flow).await?;
+
+        // A flow that crossed our end is still applied to the session state, but nothing may
+        // follow the end on this channel: neither the echo the flow asks for nor transfers
+        // that were waiting for the window it re-opens
+        if matches!(
+            self.local_state,
+            SessionState::EndSent | SessionState::Discarding
+        ) {
+            return Ok(None);
+        }
+
         let outgoing_session_flow = outgoing_link_flow
             // The link may already have sent its detach (the peer's flow crossed it): the
             // relay stays until the peer's detach arrives, but nothing more may be sent for
